@@ -1,6 +1,6 @@
 """C05 - farm manager always holds every locked LP token and every unclaimed reward (structural premises)."""
 import re
-from rules.common import (PredTrue, where, flat_atoms, all_origins, exact_origins, ops_of, show, origin_match, field_val, effects_signature)
+from rules.common import (opmap, PredTrue, where, flat_atoms, all_origins, exact_origins, ops_of, show, origin_match, field_val, effects_signature)
 from base import CutPolicy, Check
 from absint import EMPTY, vfield, tagvals, const_of
 import rules.C08 as c8
@@ -64,7 +64,7 @@ def run(W, chk):
         paid = {o for o in all_origins(A.d(vfield(vfield(field_val(sends[0], "amount"), "[*]"), "amount"))) if not o.startswith("Const(")}
         ca = vfield(fu[0].extra.get("value", EMPTY), "claimed_amount")
         rec = {o for o in all_origins(ca) if not o.startswith("Const(")} - {"Store(FARMS).claimed_amount"}
-        m = {o: ops for (o, ops) in flat_atoms(ca)}
+        m = opmap(ca)
         chk.expect(paid == rec and bool(paid) and m.get("Store(FARMS).claimed_amount") == frozenset(["add"]), "PROV-claim-recorded", "claim",
                    "claimed_amount += the reward that is paid (same provenance)", "paid reward and recorded claim differ: only paid %s, only recorded %s" % (
                        sorted(paid - rec)[:5], sorted(rec - paid)[:5]), where(fu[0]))
